@@ -296,7 +296,19 @@ func (s *Stream) close() error {
 		return nil
 	}
 
-	if atomic.CompareAndSwapUint32(&s.state, oldState, uint32(streamClosed)) {
+	// the state may move under us (the peer's close turning opened into halfClosed
+	// on the event loop): retry with the new state instead of silently giving up,
+	// otherwise the stream would stay half-closed and never be cleaned.
+	swapped := atomic.CompareAndSwapUint32(&s.state, oldState, uint32(streamClosed))
+	for !swapped {
+		oldState = s.getStreamState()
+		if oldState == uint32(streamClosed) {
+			return nil
+		}
+		swapped = atomic.CompareAndSwapUint32(&s.state, oldState, uint32(streamClosed))
+	}
+
+	if swapped {
 		if s.getCallbacks() != nil {
 			s.asyncGoroutineWg.Wait()
 		}
